@@ -30,9 +30,9 @@ import (
 
 type c09Step struct {
 	K     string `json:"k"`
-	Mode  string `json:"mode,omitempty"`  // store: append | over | big | gap
-	N     int    `json:"n,omitempty"`     // store: batch size; bulk: span
-	Type  int    `json:"type,omitempty"`  // raft.LogType
+	Mode  string `json:"mode,omitempty"` // store: append | over | big | gap
+	N     int    `json:"n,omitempty"`    // store: batch size; bulk: span
+	Type  int    `json:"type,omitempty"` // raft.LogType
 	Term  uint64 `json:"term,omitempty"`
 	Pay   string `json:"pay,omitempty"`   // payload kind
 	Ext   string `json:"ext,omitempty"`   // extensions
@@ -40,8 +40,8 @@ type c09Step struct {
 	Proto bool   `json:"proto,omitempty"` // use StoreLogProto
 	A     int    `json:"a,omitempty"`     // generic selector (which existing index / key)
 	B     int    `json:"b,omitempty"`
-	Flip  bool   `json:"flip,omitempty"`  // reopen with the other encoding
-	Kill  int    `json:"kill,omitempty"`  // >0: kill the process at the Kill-th storage operation of this step
+	Flip  bool   `json:"flip,omitempty"` // reopen with the other encoding
+	Kill  int    `json:"kill,omitempty"` // >0: kill the process at the Kill-th storage operation of this step
 	Torn  int    `json:"torn,omitempty"`
 	Val   string `json:"val,omitempty"`
 }
@@ -179,16 +179,16 @@ func appendedAt(kind int, salt int) time.Time {
 }
 
 type c09Run struct {
-	res    *core.Result
-	tr     *core.Trace
-	dir    string
-	root   string
-	gen    int
-	proto  bool
-	s      *LevelDBStore
-	m      *c09Model
-	step   int
-	salt   int
+	res     *core.Result
+	tr      *core.Trace
+	dir     string
+	root    string
+	gen     int
+	proto   bool
+	s       *LevelDBStore
+	m       *c09Model
+	step    int
+	salt    int
 	deleted []uint64
 }
 
